@@ -1,0 +1,111 @@
+// Copyright 2026. Contracts for deductive verification (gowp).
+// This file contains only comments; it is compiled only with -tags verif
+// and adds nothing to the package.
+
+//go:build verif
+
+package fit
+
+// ---------------------------------------------------------------------
+// Polynomial regression (C15). Model real.
+
+//@ spec xpow(x float64, i int) float64 = i <= 0 ? 1 : xpow(x, i - 1) * x
+//@ spec peval(c []float64, x float64, k int) float64 = k <= 0 ? 0 : peval(c, x, k - 1) + c[k-1] * xpow(x, k - 1)
+
+// The monomial basis functions: term d writes x^d for every x.
+//@ func PolynomialRegression#lit1
+//@   model real
+//@   ensures [ones] forall i in 0..len(termsOut) :: termsOut[i] == 1
+//@   loop 1 (i) invariant forall j in 0..i :: termsOut[j] == 1
+//@   assigns termsOut[*]
+//@ func PolynomialRegression#lit2
+//@   model real
+//@   requires region(xs) != region(termOut) && len(termOut) >= len(xs)
+//@   ensures [x] forall i in 0..len(xs) :: termOut[i] == xs[i]
+//@   assigns termOut[*]
+//@ func PolynomialRegression#lit3
+//@   model real
+//@   requires region(xs) != region(termOut) && len(termOut) >= len(xs)
+//@   ensures [x2] forall i in 0..len(xs) :: termOut[i] == xs[i] * xs[i]
+//@   loop 1 (i) invariant forall j in 0..i :: termOut[j] == xs[j] * xs[j]
+//@   assigns termOut[*]
+//@ func PolynomialRegression#lit4
+//@   model real
+//@   requires region(xs) != region(termOut) && len(termOut) >= len(xs)
+//@   ensures [xd] forall i in 0..len(xs) :: termOut[i] == pow(xs[i], d)
+//@   loop 1 (i) invariant forall j in 0..i :: termOut[j] == pow(xs[j], d)
+//@   assigns termOut[*]
+
+// F evaluates the polynomial with the returned coefficients: sum c[i]*x^i.
+//@ func PolynomialRegression#lit5
+//@   model real
+//@   requires len(coeffs) >= 1
+//@   ensures [poly] result == peval(coeffs, x, len(coeffs))
+//@   loop 1 (c) invariant y == peval(coeffs, x, _k + 1) && xp == xpow(x, _k + 1)
+//@   assigns nothing
+
+// gonum-based normal equations: assumed (A4).
+//@ assume func LinearLeastSquares
+//@   model real
+//@   trusted builds X^T W X b = X^T W y with gonum/mat and solves it; gonum is not modelled. Assumed: reads xs, ys, weights only; panics exactly on the two length mismatches
+//@   requires len(xs) == len(ys) && (isnil(weights) || len(weights) == len(xs))
+//@   ensures len(params) == len(terms) && fresh(params)
+//@   assigns nothing
+
+//@ func PolynomialRegression
+//@   model real
+//@   requires degree >= 0 && len(xs) == len(ys) && (isnil(weights) || len(weights) == len(xs))
+//@   ensures [coefficients] len(result.Coefficients) == degree + 1 && fresh(result.Coefficients)
+//@   loop 1 (d) invariant 3 <= d && len(terms) == degree + 1 && fresh(terms)
+//@   assigns nothing
+
+// ---------------------------------------------------------------------
+// LOESS (C15, C20)
+
+//@ func pairSlice.Len
+//@   model real
+//@   requires s != nil
+//@   ensures [def] result == len(s.xs)
+//@   assigns nothing
+//@ func pairSlice.Less
+//@   model real
+//@   requires s != nil && 0 <= i && i < len(s.xs) && 0 <= j && j < len(s.xs)
+//@   ensures [def] result <==> s.xs[i] < s.xs[j]
+//@   assigns nothing
+//@ func pairSlice.Swap
+//@   model real
+//@   requires s != nil && 0 <= i && i < len(s.xs) && 0 <= j && j < len(s.xs) && len(s.ys) == len(s.xs) && region(s.xs) != region(s.ys)
+//@   ensures [pairs]  s.xs[i] == old(s.xs[j]) && s.xs[j] == old(s.xs[i]) && s.ys[i] == old(s.ys[j]) && s.ys[j] == old(s.ys[i])
+//@   ensures [others] forall k in 0..len(s.xs) :: k != i && k != j ==> s.xs[k] == old(s.xs[k]) && s.ys[k] == old(s.ys[k])
+//@   assigns s.xs[*], s.ys[*]
+
+//@ assume func sort.Float64sAreSorted
+//@   trusted standard library
+//@   ensures result <==> sortedF(x)
+//@   assigns nothing
+//@ assume func sort.Sort
+//@   trusted standard library: performs data.Swap calls until data is ordered by data.Less; here data is a *pairSlice
+//@   ensures sortedF(ptrcast(data, pairSlice).xs)
+//@   assigns ptrcast(data, pairSlice).xs[*], ptrcast(data, pairSlice).ys[*]
+
+//@ func LOESS
+//@   model real
+//@   requires degree >= 0 && span > 0
+//@   assigns nothing
+
+//@ assume func sort.Search
+//@   trusted standard library binary search: returns an index in [0, n]
+//@   results idx
+//@   ensures 0 <= idx && idx <= n
+//@   assigns nothing
+
+// The smoother returned by LOESS, as a function literal of its own (captured:
+// the sorted xs, ys, the window size q and the degree).
+//@ func LOESS#lit1
+//@   model real
+//@   requires len(xs) >= 2 && len(ys) >= len(xs) && 2 <= q && q <= len(xs) && degree >= 0 && (forall i in 0..len(xs), j in 0..len(xs) :: i < j ==> xs[i] < xs[j])
+//@   check @ret1 [window]  0 <= n && n + q <= len(xs) && len(closest) == q
+//@   check @ret1 [radius]  d == max(x - closest[0], closest[q-1] - x) && d > 0
+//@   check @ret1 [tricube] forall i in 0..q :: weights[i] == (1 - (abs(x - closest[i]) / d) * (abs(x - closest[i]) / d) * (abs(x - closest[i]) / d)) * (1 - (abs(x - closest[i]) / d) * (abs(x - closest[i]) / d) * (abs(x - closest[i]) / d)) * (1 - (abs(x - closest[i]) / d) * (abs(x - closest[i]) / d) * (abs(x - closest[i]) / d))
+//@   loop 1 (i) invariant len(weights) == q && fresh(weights) && d > 0 && (forall j in 0..i :: weights[j] == (1 - (abs(x - closest[j]) / d) * (abs(x - closest[j]) / d) * (abs(x - closest[j]) / d)) * (1 - (abs(x - closest[j]) / d) * (abs(x - closest[j]) / d) * (abs(x - closest[j]) / d)) * (1 - (abs(x - closest[j]) / d) * (abs(x - closest[j]) / d) * (abs(x - closest[j]) / d)))
+//@   assigns nothing
